@@ -22,7 +22,7 @@ import (
 
 func init() {
 	vf.Register(&vf.CheckDef{ID: "C04", Level: "model_checking", Run: run,
-		Workers: map[string]vf.WorkerFunc{"sched": schedWorker, "arrival": arrivalWorker, "audit": auditWorker, "race": raceWorker},
+		Workers: map[string]vf.WorkerFunc{"sched": schedWorker, "arrival": arrivalWorker, "audit": auditWorker, "race": raceWorker, "racefunc": raceFuncWorker},
 		Replay:  replay})
 }
 
@@ -37,6 +37,7 @@ type chain struct {
 	Aux       string                                                   // contents of an auxiliary virtual file "@L" (join left file)
 	Batch     []int                                                    // explicit batch sizes (else 1..N+1)
 	Seeded    bool
+	GenIn     bool // input comes from the --igen pseudo-reader: no files, no -n
 	TeePrefix bool // tee file: only "is a prefix of the input containing the passed records" is asserted
 }
 
@@ -112,6 +113,43 @@ func mkInput(fmtName string, n int, nfiles int) input {
 				kv := strings.Split(r, ",")
 				b.WriteString(strings.TrimPrefix(kv[0], "i=") + " " + strings.TrimPrefix(kv[1], "g=") + "\n")
 			}
+		case "dkvpx":
+			for _, r := range part {
+				kv := strings.Split(r, ",")
+				b.WriteString(kv[0] + ",g=\"" + strings.TrimPrefix(kv[1], "g=") + "\"\n") // one quoted value per line
+			}
+		case "yaml":
+			for _, r := range part {
+				kv := strings.Split(r, ",")
+				b.WriteString("- i: " + strings.TrimPrefix(kv[0], "i=") + "\n  g: " + strings.TrimPrefix(kv[1], "g=") + "\n")
+			}
+		case "markdown":
+			if len(part) > 0 {
+				b.WriteString("| i | g |\n| --- | --- |\n")
+			}
+			for _, r := range part {
+				kv := strings.Split(r, ",")
+				b.WriteString("| " + strings.TrimPrefix(kv[0], "i=") + " | " + strings.TrimPrefix(kv[1], "g=") + " |\n")
+			}
+		case "dcf", "recutils":
+			for k, r := range part {
+				kv := strings.Split(r, ",")
+				if k > 0 {
+					b.WriteString("\n")
+				}
+				b.WriteString("i: " + strings.TrimPrefix(kv[0], "i=") + "\ng: " + strings.TrimPrefix(kv[1], "g=") + "\n")
+			}
+		case "barred":
+			if len(part) > 0 {
+				b.WriteString("+---+---+\n| i | g |\n+---+---+\n")
+			}
+			for _, r := range part {
+				kv := strings.Split(r, ",")
+				b.WriteString("| " + strings.TrimPrefix(kv[0], "i=") + " | " + strings.TrimPrefix(kv[1], "g=") + " |\n")
+			}
+			if len(part) > 0 {
+				b.WriteString("+---+---+\n")
+			}
 		case "jsonl":
 			for _, r := range part {
 				kv := strings.Split(r, ",")
@@ -130,6 +168,13 @@ func mkInput(fmtName string, n int, nfiles int) input {
 			b.WriteString("]\n")
 		}
 		in.Files = append(in.Files, b.String())
+	}
+	if fmtName == "yaml" {
+		// the YAML reader delivers map keys in sorted order
+		for i, r := range in.Recs {
+			kv := strings.Split(r, ",")
+			in.Recs[i] = kv[1] + "," + kv[0]
+		}
 	}
 	return in
 }
@@ -264,6 +309,9 @@ func chains(quick bool, n int) []chain {
 	add(chain{Args: S("fill-down -a -f g then sec2gmt i")})
 	add(chain{Args: S("count then put $j=1")})
 	add(chain{Args: S("group-by g then head -n 1")})
+	// a look-back window keeps reading records it has already passed on: the next verb's writes must not reach it
+	add(chain{Args: []string{"step", "-a", "slwin_1_0,shift_lag", "-f", "i", "then", "put", "$i=$i*1000"}, Name: "step -a slwin_1_0,shift_lag -f i then put $i=$i*1000"})
+	add(chain{Args: []string{"fill-down", "-a", "-f", "g", "then", "put", `$g=$g."y"`}, Name: `fill-down -a -f g then put $g=$g."y"`})
 	// print / emit text rides the record stream: position relative to records
 	add(chain{Args: []string{"put", `print "p".$i`}, Ref: func(r []string) (string, string, bool) {
 		var b strings.Builder
@@ -324,6 +372,18 @@ func chains(quick bool, n int) []chain {
 		}
 	}
 	add(chain{NoIn: true, Args: S("seqgen --start 1 --stop 3 then tac"), Batch: []int{1, 500}})
+	// the pseudo-reader (--igen) is a reader goroutine of its own
+	for _, k := range []int{0, 1, 4} {
+		k := k
+		add(chain{GenIn: true, Flags: S("--igen --gen-start 1 --gen-stop 3"), Args: S(fmt.Sprintf("head -n %d", k)), Batch: []int{1, 2, 500},
+			Ref: func(r []string) (string, string, bool) {
+				var o []string
+				for i := 1; i <= 3 && i <= k; i++ {
+					o = append(o, fmt.Sprintf("i=%d", i))
+				}
+				return join(o), "", true
+			}})
+	}
 	return cs
 }
 
@@ -346,6 +406,10 @@ func (c *config) argv(dir string) ([]string, vf.VFS) {
 		argv = append(argv, "--ijson", "--odkvp")
 	case "tsv", "csvlite", "xtab", "pprint", "jsonl":
 		argv = append(argv, "--i"+c.In.Fmt, "--odkvp")
+	case "dkvpx", "yaml", "markdown", "dcf", "recutils":
+		argv = append(argv, "-i", c.In.Fmt, "--odkvp")
+	case "barred":
+		argv = append(argv, "--ipprint", "--barred-input", "--odkvp")
 	case "nidx":
 		argv = append(argv, "--inidx", "--ifs", " ", "--oxtab", "--ops", "=") // field names 1,2: printed as 1=..,2=.. per line pair
 	}
@@ -363,7 +427,7 @@ func (c *config) argv(dir string) ([]string, vf.VFS) {
 	if c.Chain.Aux != "" {
 		files["/vfs/left.dkvp"] = c.Chain.Aux
 	}
-	if !c.Chain.NoIn {
+	if !c.Chain.NoIn && !c.Chain.GenIn {
 		for i, f := range c.In.Files {
 			name := fmt.Sprintf("/vfs/in%d.%s", i+1, c.In.Fmt)
 			files[name] = f
@@ -506,7 +570,7 @@ func enumerate(quick bool) (pairs [][]*config) {
 	}
 	nmax := ns[len(ns)-1]
 	inputs = append(inputs, mkInput("dkvp", nmax, 2), mkInput("csv", 3, 1), mkInput("csv", nmax, 2), mkInput("json", 3, 1), mkInput("json", nmax, 2))
-	for _, f := range []string{"tsv", "csvlite", "xtab", "pprint", "jsonl", "nidx"} {
+	for _, f := range []string{"tsv", "csvlite", "xtab", "pprint", "jsonl", "nidx", "dkvpx", "yaml", "markdown", "dcf", "recutils", "barred"} {
 		inputs = append(inputs, mkInput(f, 3, 1))
 		if !quick {
 			inputs = append(inputs, mkInput(f, nmax, 2))
@@ -555,7 +619,7 @@ func enumerate(quick bool) (pairs [][]*config) {
 	for _, in := range inputs {
 		n := len(in.Recs)
 		for _, ch := range chains(quick, n) {
-			if ch.NoIn && in.Name != inputs[0].Name {
+			if (ch.NoIn || ch.GenIn) && in.Name != inputs[0].Name {
 				continue
 			}
 			if in.Fmt == "nidx" && (ch.Ref != nil || strings.Contains(ch.Name, "-g")) {
@@ -588,6 +652,10 @@ func enumerate(quick bool) (pairs [][]*config) {
 			}
 			if in.Fmt != "dkvp" && !(strings.HasPrefix(ch.Name, "cat") || strings.HasPrefix(ch.Name, "head -n 1") || strings.HasPrefix(ch.Name, "head -n 2 then head") || ch.Name == "tac" || strings.HasPrefix(ch.Name, "tee")) {
 				continue // other readers: the reader-facing chains only
+			}
+			if quick && map[string]bool{"dkvpx": true, "yaml": true, "markdown": true, "dcf": true, "recutils": true, "barred": true}[in.Fmt] &&
+				!map[string]bool{"cat": true, "head -n 1": true, "cat then head -n 1": true, "tee @T then head -n 1": true, "head -n 2 then head -n 1": true, "tac": true}[ch.Name] {
+				continue // quick tier: the less common readers run the core reader-facing chains only
 			}
 			bs := ch.Batch
 			if bs == nil {
@@ -730,12 +798,15 @@ func run(c *vf.Ctx) {
 	c.Assume("goroutines interact only through intercepted operations (channels, selects, close, mutex); unsynchronised shared memory is invisible to the cooperative scheduler (guarded by a separate free-running -race pass, non-deciding)")
 	c.Assume("external processes (--prepipe, tee -p, | redirects) are outside the scheduler and not explored here")
 	c.Assume("tail -f clause: line-oriented readers (dkvp nidx csv tsv jsonl csvlite) x streaming chains, one line delivered at a time through a scheduler-visible channel; checked at every quiescent state with the input still open")
-	c.Assume("inputs: N<=3 (quick, plus one N=5 tee-before-head family) / N<=5 (thorough) records, 1-2 files, dkvp/csv/json readers; batch sizes 1..N+1")
+	c.Assume("inputs: N<=3 (quick, plus one N=5 tee-before-head family) / N<=5 (thorough) records, 1-2 files, every reader format (dkvp csv json jsonl tsv csvlite xtab pprint barred-pprint nidx dkvpx yaml markdown dcf recutils) and the --igen pseudo-reader; batch sizes 1..N+1")
+	c.Assume("the schedule exploration assumes verb goroutines share no memory except through intercepted operations; that assumption is checked by the free-running -race pass (verb x verb, verb-then-mutator, and every built-in function in two put stages), whose silence is a dynamic observation, not an enumeration")
 	if os.Getenv("VERIF_C04_ONLY_RACE") != "" {
 		// debugging aid: only the -race pass (evidence is then not representative: exhaustive=false)
 		c.Exhaustive = false
 		rdir, _ := os.MkdirTemp("/dev/shm", "verif-c04race-")
-		c.RunPool(vf.PoolSpec{Worker: "race", Bin: os.Getenv("VERIF_BIN_RACE"), Shards: 16, StallSecs: 900, Env: []string{"VERIF_RACE_LOG=" + filepath.Join(rdir, "race"), "GORACE=halt_on_error=0 exitcode=0 log_path=" + filepath.Join(rdir, "race")}})
+		c.RunPool(vf.PoolSpec{Worker: "race", Bin: os.Getenv("VERIF_BIN_RACE"), Shards: 16, StallSecs: 900, Env: []string{"VERIF_AS_GB=24", "VERIF_RACE_LOG=" + filepath.Join(rdir, "race"), "GORACE=halt_on_error=0 exitcode=0 log_path=" + filepath.Join(rdir, "race")}})
+
+		c.RunPool(vf.PoolSpec{Worker: "racefunc", Bin: os.Getenv("VERIF_BIN_RACE"), Shards: 16, StallSecs: 900, Env: []string{"VERIF_AS_GB=24", "VERIF_RACE_LOG=" + filepath.Join(rdir, "race"), "GORACE=halt_on_error=0 exitcode=0 log_path=" + filepath.Join(rdir, "race")}})
 		os.RemoveAll(rdir)
 		c.DistinctNontrivial = 2
 		return
@@ -764,7 +835,9 @@ func run(c *vf.Ctx) {
 	}
 	if rb := os.Getenv("VERIF_BIN_RACE"); rb != "" {
 		rdir, _ := os.MkdirTemp("/dev/shm", "verif-c04race-")
-		c.RunPool(vf.PoolSpec{Worker: "race", Bin: rb, Shards: 16, StallSecs: 900, Env: []string{"VERIF_RACE_LOG=" + filepath.Join(rdir, "race"), "GORACE=halt_on_error=0 exitcode=0 log_path=" + filepath.Join(rdir, "race")}})
+		c.RunPool(vf.PoolSpec{Worker: "race", Bin: rb, Shards: 16, StallSecs: 900, Env: []string{"VERIF_AS_GB=24", "VERIF_RACE_LOG=" + filepath.Join(rdir, "race"), "GORACE=halt_on_error=0 exitcode=0 log_path=" + filepath.Join(rdir, "race")}})
+
+		c.RunPool(vf.PoolSpec{Worker: "racefunc", Bin: rb, Shards: 16, StallSecs: 900, Env: []string{"VERIF_AS_GB=24", "VERIF_RACE_LOG=" + filepath.Join(rdir, "race"), "GORACE=halt_on_error=0 exitcode=0 log_path=" + filepath.Join(rdir, "race")}})
 		os.RemoveAll(rdir)
 		c.Assume("the free-running -race pass is sampling: it decides nothing about schedules; it validates the no-shared-memory assumption of the exhaustive exploration and reports what the detector sees")
 	} else {
